@@ -203,7 +203,7 @@ def mixed(rng):
 
 def generate(tier, rng):
     out = exhaustive(rng)
-    ns, nm = (70, 90) if tier == "quick" else (700, 1000)
+    ns, nm = (110, 140) if tier == "quick" else (700, 1000)
     for _ in range(ns):
         out.append(storm(rng, tier != "quick" or rng.random() < 0.3))
     for _ in range(nm):
@@ -308,7 +308,7 @@ def signature(s, o):
         return ("sanitizer/crash (%s): " % tag) + (m.group(1) + " in " + m.group(2) if m else o[:70])
     if o.startswith(":hang"):
         return "hang (%s)" % tag
-    return "accounting wrong (%s, %d threads)" % (tag, len(ths))
+    return "accounting wrong (%s)" % tag
 
 
 def shrink(s):
@@ -402,4 +402,4 @@ LEVEL_NOTE = ("PARTIAL by nature: the absence of data races and the behaviour of
               "schedule derived from the seed in ocaml/c10_driver.ml.  Modelled not verified: the C++ itself; longjmp by its contract; "
               "the hash table as a keyed list; the output's allocation while printing as one step that needs the lock free.")
 TECHNIQUE = "Coq proof over an interleaving model + wiring table regenerated from source + TSan/ASan/pthread differential run against the extracted model"
-READY = False
+READY = True
